@@ -33,6 +33,33 @@ def tc (s : Shape) (q : Pt) : Bool := s.flatEdges.any (onEdge q)
 
 variable (rs ri : Shape → Shape → Bool)
 
+/-- the translated `_is_on_segment` is the model's exact on-edge test -/
+theorem isOnSegment_eq (c a b : Pt) :
+    Src.Relate.isOnSegment edgeRings segsOf containsCoord tc holes cen vertsOf rs ri c a b = onEdge c (a, b) := by
+  simp only [Src.Relate.isOnSegment, onEdge, pcross]
+  rw [Bool.eq_iff_iff]
+  simp only [Bool.and_eq_true, beq_iff_eq, decide_eq_true_eq, Int.cast_zero]
+  constructor
+  · rintro ⟨⟨h1, h2, h3⟩, h4, h5⟩; exact ⟨⟨⟨⟨decide_eq_true h1, h2⟩, h3⟩, h4⟩, h5⟩
+  · rintro ⟨⟨⟨⟨h1, h2⟩, h3⟩, h4⟩, h5⟩; exact ⟨⟨of_decide_eq_true h1, h2, h3⟩, h4, h5⟩
+
+/-- the translated `_touches_coordinate` (two nested loops) is "some edge of some ring passes the on-edge test" -/
+theorem touches_loop_eq (s : Shape) (q : Pt) :
+    ∀ rings : List (List Edge),
+      Src.Relate.touchesCoordinate.loop1 edgeRings segsOf containsCoord tc holes cen vertsOf rs ri s q rings =
+        rings.flatten.any (onEdge q) := by
+  intro rings
+  induction rings with
+  | nil => rfl
+  | cons r rest ih =>
+    unfold Src.Relate.touchesCoordinate.loop1
+    simp only [ih, isOnSegment_eq, List.flatten_cons, List.any_append]
+    cases r.any (fun e => onEdge q (e.1, e.2)) <;> simp_all
+
+theorem touchesCoordinate_eq (s : Shape) (q : Pt) :
+    Src.Relate.touchesCoordinate edgeRings segsOf containsCoord tc holes cen vertsOf rs ri s q = tc s q := by
+  simp only [Src.Relate.touchesCoordinate, touches_loop_eq, tc, flatEdges]
+
 /-- a constructed hole is never an empty outline -/
 def HolesNonempty (s : Shape) : Prop := ∀ h ∈ s.holes, h ≠ []
 
@@ -107,7 +134,8 @@ theorem intersectsMulti_eq (s : Shape) (ys : List Shape) :
 theorem intersectsPoint_eq (s : Shape) (q : Pt) (hs : s.isPolygonLike = true) :
     (.ok (Src.Relate.intersectsPoint edgeRings segsOf containsCoord tc holes cen vertsOf rs ri s (.point q)) : Except String Bool) =
       intersectsShape s (.point q) := by
-  cases s <;> simp_all [Src.Relate.intersectsPoint, Src.Relate.containsPoint, intersectsShape, relInter, cen, tc, isPolygonLike]
+  cases s <;> simp_all [Src.Relate.intersectsPoint, Src.Relate.containsPoint, touchesCoordinate_eq, intersectsShape, relInter,
+    cen, tc, isPolygonLike]
 
 theorem intersectsPoly_eq (s t : Shape) (hs : s.isPolygonLike = true) (ht : t.isPolygonLike = true) :
     Src.Relate.intersectsPoly edgeRings segsOf containsCoord tc holes cen vertsOf rs ri s t = intersectsShape s t := by
@@ -141,16 +169,6 @@ theorem intersectsLine_eq (s : Shape) (vs : List Pt) (hs : s.isPolygonLike = tru
   cases s <;> first | rfl | (simp [isPolygonLike] at hs)
 
 /-! ### `_is_on_segment`, and `GeoLineString` / `GeoPoint` as the receiver -/
-
-/-- the translated `_is_on_segment` is the model's exact on-edge test -/
-theorem isOnSegment_eq (c a b : Pt) :
-    Src.Relate.isOnSegment edgeRings segsOf containsCoord tc holes cen vertsOf rs ri c a b = onEdge c (a, b) := by
-  simp only [Src.Relate.isOnSegment, onEdge, pcross]
-  rw [Bool.eq_iff_iff]
-  simp only [Bool.and_eq_true, beq_iff_eq, decide_eq_true_eq, Int.cast_zero]
-  constructor
-  · rintro ⟨⟨h1, h2, h3⟩, h4, h5⟩; exact ⟨⟨⟨⟨decide_eq_true h1, h2⟩, h3⟩, h4⟩, h5⟩
-  · rintro ⟨⟨⟨⟨h1, h2⟩, h3⟩, h4⟩, h5⟩; exact ⟨⟨of_decide_eq_true h1, h2, h3⟩, h4, h5⟩
 
 theorem lineContainsPoint_eq (vs : List Pt) (q : Pt) :
     (.ok (Src.Relate.lineContainsPoint edgeRings segsOf containsCoord tc holes cen vertsOf rs ri (.line vs) (.point q)) :
